@@ -508,6 +508,10 @@ def rule_schema_bfs(crate, prop, tier):
         marks = field_of_kind(crate, S, lambda t: is_vec_of(t, "bool"))
         M = tr.reg(marks[0]) if marks else None
         pv = tr.popped_vertex_path()
+        if tr.pops and tr.P1 is None:
+            o.check(False, tr, "shape", "the queue is popped at several places whose results do not merge into one dequeued "
+                    "element", tr.pops[0]["span"])
+            continue
         if not (tr.P1 is not None and M and pv is not None and len(tr.nloops) == 1):
             o.undecide(tr, "shape", "next() is not written as one pop, one visited array and one loop over "
                        "out_neighbors(popped vertex); the BFS schema cannot be applied to it")
@@ -593,6 +597,11 @@ def rule_schema_bfs(crate, prop, tier):
                 # marks
                 mv = lit[Mn]
                 mL = local_region_of_value(mv)
+                if mL is None:
+                    # the local keeps the value it was created with (its header is never changed): find it by value
+                    cands = {var for (var, ver), v in can.term_of.items() if v == mv and var.startswith("L") and var[1:].isdigit()}
+                    if len(cands) == 1:
+                        mL = next(iter(cands))
                 marked = False
                 for ev in sc.an.events:
                     if ev["k"] != "store":
@@ -800,6 +809,10 @@ def rule_schema_dfs(crate, prop, tier):
         pv = tr.popped_vertex_path()
         piped = tr.P1 is not None and M and pv is not None and not tr.nloops and len(tr.pipes) == 1 and not tr.pushes
         shape = tr.P1 is not None and M and pv is not None and len(tr.nloops) == 1 and not tr.pipes
+        if tr.pops and tr.P1 is None:
+            o.check(False, tr, "shape", "the stack is popped at several places whose results do not merge into one popped "
+                    "element", tr.pops[0]["span"])
+            continue
         if not (shape or piped):
             o.undecide(tr, "shape", "next() is not written as one pop, one visited array and one loop over "
                        "out_neighbors(popped vertex); the stack-DFS schema cannot be applied to it")
@@ -1021,6 +1034,10 @@ def rule_schema_dj(crate, prop, tier):
         Dm = tr.reg(dists[0]) if dists else None
         pv = tr.popped_vertex_path()
         shape = tr.P1 is not None and Dm and pv is not None and len(tr.nloops) == 1 and tr.nloops[0]["w"] is not None
+        if tr.pops and tr.P1 is None:
+            o.check(False, tr, "shape", "the worklist is popped at several places whose results do not merge into one popped "
+                    "entry (key and vertex of different pops are mixed, or an entry is dropped unexamined)", tr.pops[0]["span"])
+            continue
         if not shape:
             o.undecide(tr, "shape", "next() is not written as one heap pop, one dist array and one loop over "
                        "out_neighbors_weighted(popped vertex); the lazy-deletion Dijkstra schema cannot be applied to it")
